@@ -46,7 +46,7 @@ def gen(rng, tier):
             add(L.g_signal(rng, cmd=c, pf=nextpf()), "insert-lattice")
         for d in L.seg_lattice(rng):
             add(L.g_signal(rng, descs=[d], pf=nextpf()), "seg-lattice")
-        for i in range(21):
+        for i in range(255):     # every pointer_field the library can take (255 wraps in uint8: C08_pointer_255_refuted)
             add(L.g_signal(rng, pf=i), "pointer")
     n = 600 if tier == "quick" else 20000
     for _ in range(n):
